@@ -268,18 +268,14 @@ struct RpcExec {
                      ",\"t\":" + std::to_string((long long)g_vnow) + "}");
     }
     void run_cb(size_t k, const json &b, std::shared_ptr<bool> ran, int code, const tbox::Json &res) {
-        {
-            {
-                vh::T().line("{\"e\":\"Cb\",\"k\":" + std::to_string(k) + ",\"c\":" + std::to_string(code) + ",\"v\":" + std::to_string(intern(dumps(res))) + "}");
-                bool first = !*ran; *ran = true;
-                if (first) for (auto &op : b) {
-                    std::string o = op[0].get<std::string>();
-                    if (o == "req") do_req(true, json::array());
-                    else if (o == "rsp") { size_t t = op[1].get<size_t>(); do_rsp_k(t == 0 ? k : t, "res", next_val()); }
-                }
-                vh::T().line("{\"e\":\"CbEnd\",\"k\":" + std::to_string(k) + "}");
-            }
+        vh::T().line("{\"e\":\"Cb\",\"k\":" + std::to_string(k) + ",\"c\":" + std::to_string(code) + ",\"v\":" + std::to_string(intern(dumps(res))) + "}");
+        bool first = !*ran; *ran = true;        // the body runs on the first invocation only
+        if (first) for (auto &op : b) {
+            std::string o = op[0].get<std::string>();
+            if (o == "req") do_req(true, json::array());
+            else if (o == "rsp") { size_t t = op[1].get<size_t>(); do_rsp_k(t == 0 ? k : t, "res", next_val()); }
         }
+        vh::T().line("{\"e\":\"CbEnd\",\"k\":" + std::to_string(k) + "}");
     }
     int next_val() { return ++val_seq; }
     void do_rsp_k(size_t k, const std::string &kind, int val) {
